@@ -2,6 +2,11 @@
 
 package json
 
+import (
+	vruntime "runtime"
+	vdebug "runtime/debug"
+)
+
 // jsAlpha restricts b to the JSON structural alphabet (assumption, stated in the evidence).
 func jsAlpha(b []byte, alpha string) {
 	for _, c := range b {
@@ -272,6 +277,28 @@ func HC16Chain() {
 	dep := vDepthMax()
 	if vSymbolic() {
 		vAssert(dep <= 2*(k+1)+6, "chain-stack-depth-bounded-by-cap")
+	} else {
+		// native replay of a depth finding: the same chain shape, 400000 openers deep, through the real
+		// pool (cap 4096): the goroutine's stack must not grow with the input
+		var big []byte
+		for i := 0; i < 400000; i++ {
+			if shape == 1 || (shape == 2 && i%2 == 1) {
+				big = append(big, '{', '"', 'k', '"', ':')
+			} else {
+				big = append(big, '[')
+			}
+		}
+		grew := make(chan uint64)
+		go func() {
+			old := vdebug.SetGCPercent(-1)
+			var m0, m1 vruntime.MemStats
+			vruntime.ReadMemStats(&m0)
+			Parse(q, big)
+			vruntime.ReadMemStats(&m1)
+			vdebug.SetGCPercent(old)
+			grew <- m1.StackInuse - m0.StackInuse
+		}()
+		vAssert(<-grew < 32<<20, "chain-stack-depth-bounded-by-cap")
 	}
 	// nesting depth of the input (brackets outside strings)
 	depth, maxDepth := 0, 0
